@@ -128,6 +128,14 @@ CLAIMED = {
     note="PARTIAL: delivery of the host callback's exception under jit/vmap is JAX runtime behaviour (observed, not proved).",
     technique="Coq proof (sorted <-> no adjacent inversion) + exact correspondence + exception table",
     ref="DESIGN.md section 6, C17"),
+ "C14": dict(
+    text="Coq theorems: flatten/unflatten of the object language of equinox Modules round-trips and its leaves are exactly the dynamic fields; complete enumeration (vm_compute) of the table of ALL "
+         "Python-level boolean tests of the library, REGENERATED from the source and the imported dataclasses on every run, shows that every value read by a test is a static field, a declared-static jit "
+         "argument, a Python-level flag, guarded by a tracer test, or inside a host callback. The observable claim is exercised: 9 public entry points x kernel expressions under jit of the enclosing function, "
+         "vmap over hyper-parameters and over y (vs loops), pytree round trip; operator overloads with traced scalars; model flatten order vs jax.tree_util for 12 library objects.",
+    note="PARTIAL: the tracer, XLA fusion/reassociation and vmap batching rules are outside the model (exercised, not proved). The classification rules of gen_fields.py are trusted.",
+    technique="Coq proof (pytree round trip by structural induction; finite enumeration of a source-regenerated branch table) + transformation runs",
+    ref="DESIGN.md section 6, C14"),
 }
 NOT_YET = {}
 
